@@ -66,6 +66,7 @@ class DataLoggerRun:
         from pyrtma.data_logger.formatters.raw import RawFormatter
         from pyrtma.data_logger.formatters.json import JsonFormatter
         from pyrtma.data_logger.formatters.quicklogger import QLFormatter
+        from pyrtma.data_logger.formatters.msg_headers import MsgHeaderFormatter
         ch = self.ch
         ch.cap = min(ch.cap, 300_000)      # bounds a run in which stop()/close() would spin for ever
         self.DCM = DCM
@@ -81,11 +82,11 @@ class DataLoggerRun:
         self.tmp = tempfile.mkdtemp(prefix="verif_dl_", dir=SCRATCH)
         md = LoggingMetadata()
         self.dc = DCM.DataCollection("coll", self.tmp, "run", md, use_thread=True)
-        fm = {"raw": RawFormatter, "json": JsonFormatter, "quicklogger": QLFormatter}
+        fm = {"raw": RawFormatter, "json": JsonFormatter, "quicklogger": QLFormatter, "msg_header": MsgHeaderFormatter}
         nds = 1 + ch.pick("cfg.nds", 3)
         self.sets = []
         for i in range(nds):
-            fmt = self.forced.get("formatter") or ch.choose("cfg.fmt", ["raw", "json", "quicklogger"])
+            fmt = self.forced.get("formatter") or ch.choose("cfg.fmt", ["raw", "json", "quicklogger", "raw", "json", "quicklogger", "msg_header"])
             sel = ch.weighted("cfg.sel", [(2, "all"), (3, "some"), (1, "one")])
             if sel == "all":
                 types = [ALL]
@@ -328,6 +329,16 @@ class DataLoggerRun:
                     pos += 48 + n
                 if pos != len(data):
                     self.res.add("C17", "raw_torn", f"{os.path.basename(p)}: {len(data) - pos} stray bytes at the end")
+            elif fmt == "msg_header":
+                lines = open(p, "rt").read().splitlines()
+                if not lines:
+                    self.res.add("C17", "csv_no_header", f"{os.path.basename(p)} is empty")
+                    continue
+                cols = lines[0].split(",")
+                for line in lines[1:]:
+                    vals = line.split(",")
+                    row = dict(zip(cols, vals))
+                    out.append(("hdr", int(row["msg_type"]), int(row["msg_count"]), float(row["send_time"])))
             elif fmt == "json":
                 for line in open(p, "rt").read().splitlines():
                     if not line.strip():
@@ -356,6 +367,9 @@ class DataLoggerRun:
         res = self.res
         for ds, fmt, types, sub in self.sets:
             exp = self.expected[ds.name]
+            if fmt == "msg_header":
+                # the csv formatter only records headers: compare (type, count, send_time)
+                exp = [("hdr",) + struct.unpack_from("<ii", b, 0) + struct.unpack_from("<d", b, 8) for b in exp]
             try:
                 got, files = self.read_back(ds, fmt, subdir)
             except Exception as e:
@@ -369,7 +383,7 @@ class DataLoggerRun:
                 res.probes["single_message"] += 1
             if got == exp:
                 continue
-            ids = lambda seq: [struct.unpack_from("<i", b, 4)[0] for b in seq]
+            ids = lambda seq: [(b[2] if isinstance(b, tuple) else struct.unpack_from("<i", b, 4)[0]) for b in seq]
             gi, ei = ids(got), ids(exp)
             if sorted(gi) == sorted(ei) and gi != ei:
                 clause = "reordered"
